@@ -850,3 +850,50 @@ Theorem C06_iter : forall (V : Type) next (t : ptensor V) l ed,
     forall idx', in_bounds (tl (shape V t)) idx' -> denote V s idx' = denote V t (j :: idx').
 Proof. exact iter_refines. Qed.
 Print Assumptions C06_iter.
+
+(** * The storage layout of the physical tensor (Model/Storage.v): torch reads a tensor as a strided view
+    (offset, strides) of a flat buffer; strides may be 0 ([expand()]), permuted, sliced or overlapping.  The
+    tensor-level model takes [physical] as a function of the coordinates, so all theorems above hold for every
+    layout; these make the step explicit and record which stride-based shortcut is sound. *)
+Require Import Fggs.Model.Storage Fggs.Proofs.Storage_layout.
+
+(** an elementwise map over the storage = the elementwise map of the logical contents, for every layout *)
+Theorem C06_storage_map_values : forall (V : Type) (f : V -> V) dv (v : sview V) sizes,
+  view_values V (f dv) (view_map V f v) sizes = map f (view_values V dv v sizes).
+Proof. exact view_map_values. Qed.
+Print Assumptions C06_storage_map_values.
+
+(** the coordinate along a dimension of stride 0 is irrelevant *)
+Theorem C06_storage_stride0 : forall (V : Type) dv buf off strides i j, length i = length j ->
+  (forall k, nth k strides 0 = 0 \/ nth k i 0 = nth k j 0) ->
+  view_read V dv (buf, off, strides) i = view_read V dv (buf, off, strides) j.
+Proof. exact view_read_stride0. Qed.
+Print Assumptions C06_storage_stride0.
+
+(** two views with the same logical contents give patterned tensors with the same denotation *)
+Theorem C06_storage_layout_irrelevant : forall (V : Type) dv1 dv2 (v1 v2 : sview V) ps vs d,
+  (forall c, view_read V dv1 v1 c = view_read V dv2 v2 c) ->
+  forall idx, denote V (pt_of_view V dv1 v1 ps vs d) idx = denote V (pt_of_view V dv2 v2 ps vs d) idx.
+Proof. exact pt_of_view_layout_irrelevant. Qed.
+Print Assumptions C06_storage_layout_irrelevant.
+
+(** a unary map (scalar add / mul, abs, ...) of a patterned tensor over a view = the tensor over the mapped storage *)
+Theorem C06_storage_pt_map : forall (V : Type) (f : V -> V) fd dv (v : sview V) ps vs d idx,
+  denote V (pt_map V f fd (pt_of_view V dv v ps vs d)) idx =
+  denote V (pt_of_view V (f dv) (view_map V f v) ps vs fd) idx.
+Proof. exact pt_map_of_view. Qed.
+Print Assumptions C06_storage_pt_map.
+
+(** "operate on the repeated cell of an expanded constant and expand again" is sound when ALL strides are 0 ... *)
+Theorem C06_map_expanded_all_zero : forall (V : Type) (f : V -> V) dv (v : sview V) idx,
+  view_read V (f dv) (map_expanded V all_zero f dv v) idx = f (view_read V dv v idx).
+Proof. exact map_expanded_all_zero. Qed.
+Print Assumptions C06_map_expanded_all_zero.
+
+(** ... and not when it fires as soon as SOME stride is 0 (a partially expanded view) *)
+Theorem C06_map_expanded_some_zero_refuted :
+  exists (f : nat -> nat) dv (v : sview nat) idx,
+    view_in_range 2 0 [0; 1] [2; 2] = true /\ v = ([1; 2], 0, [0; 1]) /\
+    view_read nat (f dv) (map_expanded nat some_zero f dv v) idx <> f (view_read nat dv v idx).
+Proof. exact map_expanded_some_zero_refuted. Qed.
+Print Assumptions C06_map_expanded_some_zero_refuted.
